@@ -13,7 +13,7 @@ lake build >/dev/null 2>&1 || true
 mkdir -p .lake/build/lib/lean/Spike
 ORDER="Lane LaneC GroupS SemaS LaneR LaneRProof LaneRResp SemaP OnceP ApplyP TimeA TimeB \
 LaneW LaneWProof LaneWStep1 LaneWStep2 LaneWStep3 LaneWStep4 LaneWStep5 LaneWStep6 LaneWStep7 LaneWMain \
-DataP Base64P Base32P AttrP SuspendP SourceP HeapP IoP IoP2 IoP3 \
+DataP Base64P Base32P Utf8P Utf8F Utf16P AttrP SuspendP SourceP HeapP IoP IoP2 IoP3 \
 GroupP GroupPA GroupPF9 GroupPB GroupPB2 GroupPB3 GroupPC GroupPD HierP HbP \
 LaneF LaneFProof LaneFFifo LaneFFifo2 LaneFFifo3 LaneFFifo4 LaneFFifo5 LaneFFifo6 LaneFFifo7 LaneFFifo8 LaneFFifo9 LaneFFifoMain \
 RefP SrcP BlockP CancelP"
